@@ -1737,7 +1737,7 @@ def desugar(rec, prog, stats):
             if dty.get("k") == "adt" and dty.get("path") == "core::option::Option":
                 nextfn = None
                 if ity.get("k") == "adt":
-                    nextfn = ITER_NEXT_OF.get(ity["path"]) or {"core::iter::Enumerate": "<core::iter::Enumerate<I> as core::iter::Iterator>::next"}.get(ity["path"])
+                    nextfn = ITER_NEXT_OF.get(ity["path"]) or GENERIC_NEXT.get(ity["path"]) or (ADAPTOR_NEXT.get(ity["path"]) or (None,))[0]
                 line = t.get("line")
                 opt_ty = {"k": "adt", "path": "core::option::Option", "args": [item_ty], "s": "core::option::Option<T>"}
                 isz = {"k": "int", "bits": 64, "name": "isize"}
